@@ -56,6 +56,15 @@ pub enum Ev {
     Burst,
     /// a client datagram of exactly `len` bytes
     ClientLen(usize),
+    /// a control client changes the liveness timeout at run time
+    SetTimeout(u64),
+    /// thirty client datagrams 10 ms apart (a stream slower than the flush tick, faster than nothing)
+    Trickle,
+    /// the receiver sends five datagrams back to back on the link (one recvmmsg batch for its reader task):
+    /// 16 bytes, an empty one, 2 bytes, 1316 bytes, 188 bytes
+    RelayBurst(usize),
+    /// the link is black-holed for `secs` idle seconds and then repaired (long enough: it is re-opened)
+    Outage(usize, u64),
     /// rewrite the ips file with the given content and send SIGHUP (applied by the next housekeeping pass)
     Reload(&'static str),
     /// a subscriber of the given topic with a one-line channel that never reads
@@ -86,7 +95,7 @@ impl LoopModel {
         match level {
             // streaming / relay alphabet
             0 => {
-                events.extend([Ev::Burst, Ev::Relay(0, 16), Ev::Relay(1, 1316), Ev::Relay(0, 1500), Ev::ClientLen(1), Ev::ClientLen(1500), Ev::Fault(1, Mode::BlackHole), Ev::Repair(1)]);
+                events.extend([Ev::Burst, Ev::Relay(0, 16), Ev::Relay(1, 1316), Ev::Relay(0, 1500), Ev::ClientLen(1), Ev::ClientLen(1500), Ev::Fault(1, Mode::BlackHole), Ev::Repair(1), Ev::RelayBurst(1), Ev::Outage(1, 7), Ev::Trickle]);
             }
             // fault alphabet
             1 => {
@@ -97,6 +106,8 @@ impl LoopModel {
                     events.push(Ev::Fault(i, Mode::Flap));
                 }
                 events.push(Ev::Forget);
+                events.push(Ev::SetTimeout(15000));
+                events.push(Ev::SetTimeout(2000));
             }
             // bind faults
             2 => {
@@ -172,6 +183,8 @@ struct LinkMon {
     carried: Vec<u32>,
     /// the address is in the sender's link set (as far as the applied ips lists say)
     present: bool,
+    /// REG3 was delivered on the link's current socket (registered, as far as the receiver's answers say)
+    reg3_on_this_socket: bool,
 }
 
 struct Run<'a> {
@@ -201,6 +214,11 @@ struct Run<'a> {
     /// the pass that applied a reload has run; the statistics of the *next* pass must show this link set
     /// (the loop updates the statistics before it applies the queued change)
     reload_to_verify: Option<(bool, Vec<usize>, Vec<usize>)>,
+    /// the liveness timeout currently configured (a control client may change it at run time)
+    timeout: u64,
+    /// when it was last changed (teardown clauses allow either value for one timeout's length afterwards)
+    timeout_prev: u64,
+    timeout_changed_at: u64,
     /// receivers of frozen subscribers (kept so the channels stay open and full)
     frozen: Vec<tokio::sync::mpsc::Receiver<String>>,
     /// the mirrored world driven in lock-step (conformance runs only)
@@ -238,6 +256,7 @@ fn fresh_link(now: u64) -> LinkMon {
         connected_prev: false,
         carried: Vec::new(),
         present: false,
+        reg3_on_this_socket: false,
     }
 }
 
@@ -333,8 +352,11 @@ impl<'a> Run<'a> {
 
     fn socket_recreated(&mut self, l: usize) -> Result<(), Fail> {
         let now = self.now();
-        let timeout = self.m.timeout;
+        let timeout = self.timeout;
         self.cov.socket_recreations += 1;
+        // a change of the configured timeout takes effect at the next pass: for one (old) timeout's length after a
+        // change either value may still explain a teardown
+        let timeout = if now.saturating_sub(self.timeout_changed_at) <= self.timeout_prev.max(self.timeout) + 2000 { timeout.min(self.timeout_prev) } else { timeout };
         let k = &self.links[l];
         if k.established {
             if now.saturating_sub(k.last_live_delivery) < timeout {
@@ -358,6 +380,7 @@ impl<'a> Run<'a> {
         k.last_socket_change = now;
         k.socket_changes += 1;
         k.rec_known = false;
+        k.reg3_on_this_socket = false;
         Ok(())
     }
 
@@ -419,7 +442,7 @@ impl<'a> Run<'a> {
     async fn after_housekeeping(&mut self, o: &StepOut) -> Result<(), Fail> {
         let now = self.now();
         let n = MAX_ADDR;
-        let timeout = self.m.timeout;
+        let timeout = self.timeout;
         let snap = self.rig.stats.get();
         // stats rows by link
         let mut row: Vec<Option<srtla_send::stats::LinkStats>> = vec![None; n];
@@ -533,7 +556,8 @@ impl<'a> Run<'a> {
             }
             // detection and retry
             let k = &self.links[l];
-            if k.established && st.connected && now.saturating_sub(k.last_delivery) >= timeout + 6000 && now - k.last_socket_change >= 6000 {
+            let det_timeout = if now.saturating_sub(self.timeout_changed_at) <= self.timeout_prev.max(self.timeout) + 2000 { timeout.max(self.timeout_prev) } else { timeout };
+            if k.established && st.connected && now.saturating_sub(k.last_delivery) >= det_timeout + 6000 && now - k.last_socket_change >= 6000 {
                 return Err(Fail::new(
                     "real:silent-link-not-torn-down",
                     format!(
@@ -650,6 +674,7 @@ impl<'a> Run<'a> {
         }
         if b == [0x92, 0x02] {
             self.links[l].established = true;
+            self.links[l].reg3_on_this_socket = true;
         }
         let o = self.rig.uplink_send(l, b).await.map_err(|e| Fail::new("MACHINERY", e))?;
         if let Some(t) = self.twin.as_mut() {
@@ -662,7 +687,7 @@ impl<'a> Run<'a> {
 
     fn surely_usable(&self) -> bool {
         // a link that the last statistics reported connected and live, on a healthy path, registered at the receiver
-        self.pending_reload.is_none() && self.links.iter().any(|k| k.present && k.live_prev && k.mode == Mode::Ok && k.rec_known && !k.bind_fail && self.now().saturating_sub(k.last_live_delivery) + 2000 < self.m.timeout)
+        self.pending_reload.is_none() && self.links.iter().any(|k| k.present && k.reg3_on_this_socket && k.mode == Mode::Ok && k.rec_known && !k.bind_fail && self.now().saturating_sub(k.last_live_delivery) + 2000 < self.timeout.min(self.timeout_prev))
     }
 
     async fn client(&mut self, p: Vec<u8>) -> Result<(), Fail> {
@@ -864,6 +889,76 @@ impl<'a> Run<'a> {
                 self.cov.frozen_subscribers += 1;
                 Ok(())
             }
+            Ev::RelayBurst(l) if l < n => {
+                if self.twin.is_some() {
+                    // a batch is a property of the reader task, which the mirrored world does not have
+                    return Ok(());
+                }
+                if self.links[l].mode == Mode::BlackHole || self.links[l].src_port.is_none() || !self.links[l].present {
+                    return Ok(());
+                }
+                let mut batch: Vec<Vec<u8>> = Vec::new();
+                for len in [16usize, 0, 2, 1316, 188] {
+                    self.relay_tag += 1;
+                    let mut p = vec![0x80u8, 0x06, 0, 0];
+                    p.extend_from_slice(&(0xB100_0000u32 + self.relay_tag).to_be_bytes());
+                    p.resize(len.max(8), 0x6b);
+                    p.truncate(len);
+                    batch.push(p);
+                }
+                // a 2-byte datagram carries no tag: make it distinguishable by its type alone
+                let now = self.now();
+                self.links[l].last_delivery = now;
+                self.links[l].last_live_delivery = now;
+                let expect: Vec<Vec<u8>> = batch.iter().filter(|p| p.len() >= 2).cloned().collect();
+                let before: Vec<u32> = expect.iter().map(|p| self.relay_seen.get(p).copied().unwrap_or(0)).collect();
+                self.relay_expected.extend(expect.iter().cloned());
+                let o = self.rig.uplink_send_many(l, &batch).await.map_err(|e| Fail::new("MACHINERY", e))?;
+                self.absorb(&o, false)?;
+                if self.client_known {
+                    for (p, b) in expect.iter().zip(before) {
+                        if self.relay_seen.get(p).copied().unwrap_or(0) == b {
+                            return Err(Fail::new(
+                                "real:receiver-datagram-not-relayed",
+                                format!("of five datagrams the receiver sent back to back on link {l} (16, 0, 2, 1316, 188 bytes) the one of {} bytes did not reach the client", p.len()),
+                            ));
+                        }
+                    }
+                }
+                Ok(())
+            }
+            Ev::SetTimeout(ms) => {
+                let applied = self.rig.config.set_conn_timeout_ms(ms);
+                self.timeout_prev = self.timeout;
+                self.timeout = applied;
+                self.timeout_changed_at = self.now();
+                Ok(())
+            }
+            Ev::Trickle => {
+                for _ in 0..30 {
+                    let t = self.now() + 10;
+                    if t + 40 >= self.next_hk {
+                        break;
+                    }
+                    self.to(t).await?;
+                    let seq = self.next_seq;
+                    self.next_seq += 1;
+                    self.client(srt_data(seq, false, seq, 1316)).await?;
+                    self.check_forwarded()?;
+                }
+                let t = (self.now() + 31).min(self.next_hk - 1);
+                self.to(t).await?;
+                self.check_forwarded()?;
+                self.acks().await
+            }
+            Ev::Outage(l, secs) if l < n => {
+                self.links[l].mode = Mode::BlackHole;
+                for _ in 0..secs {
+                    self.second(false).await?;
+                }
+                self.links[l].mode = Mode::Ok;
+                Ok(())
+            }
             Ev::PublishWindow => {
                 let hub = self.rig.hub.clone();
                 let k = self.cov.frozen_subscribers;
@@ -970,6 +1065,9 @@ fn run_path_once(m: &LoopModel, path: &[usize]) -> RunResult {
             relay_tag: 0,
             passes: 0,
             cov: Cov::default(),
+            timeout: m.timeout,
+            timeout_prev: m.timeout,
+            timeout_changed_at: 0,
             pending_reload: None,
             reload_to_verify: None,
             frozen: Vec::new(),
@@ -992,6 +1090,12 @@ fn run_path_once(m: &LoopModel, path: &[usize]) -> RunResult {
     });
     match r {
         Ok(x) => x,
+        Err(e) if e.starts_with("BLOCKED") => RunResult {
+            fail: Some((path.len().saturating_sub(1), Fail::new("real:housekeeping-pass-stalled-and-hub-blocked", e))),
+            digest: 0,
+            steps: 0,
+            cov: Cov::default(),
+        },
         Err(e) => RunResult { fail: Some((usize::MAX, Fail::new("MACHINERY", e))), digest: 0, steps: 0, cov: Cov::default() },
     }
 }
@@ -1068,6 +1172,9 @@ pub fn explore(rep: &mut Report, m: &LoopModel, plan: &RealPlan, keys: &[&str], 
         if t0.elapsed() > wall {
             skipped.fetch_add(1, Ordering::Relaxed);
             return None;
+        }
+        if std::env::var("VERIF_TRACE").is_ok() {
+            eprintln!("TRACE path {:?}", paths[i]);
         }
         let r = run_path(m, &paths[i]);
         steps.fetch_add(r.steps, Ordering::Relaxed);
